@@ -114,6 +114,8 @@ struct PublishInfo {
     inflight: HashSet<num::NonZeroU16>,
     /// `QoS 2` publishes acknowledged with PUBREC, waiting for PUBREL
     received: HashSet<num::NonZeroU16>,
+    /// number of unacknowledged `QoS 1` and `QoS 2` publishes
+    publishes: usize,
     aliases: HashMap<num::NonZeroU16, ByteString>,
 }
 
@@ -140,6 +142,7 @@ where
                     aliases: HashMap::default(),
                     inflight: HashSet::default(),
                     received: HashSet::default(),
+                    publishes: 0,
                 }),
             }),
         }
@@ -214,12 +217,12 @@ where
                     if let Some(pid) = packet_id {
                         // check for receive maximum
                         let receive_max = state.receive_max();
-                        if receive_max != 0 && inner.inflight.len() >= receive_max as usize {
+                        if receive_max != 0 && inner.publishes >= receive_max as usize {
                             log::trace!(
                                 "{}: Receive maximum exceeded: max: {} in-flight: {}",
                                 self.tag(),
                                 receive_max,
-                                inner.inflight.len()
+                                inner.publishes
                             );
                             return Err(SpecViolation::Pub_3_3_4_7.into());
                         }
@@ -250,6 +253,7 @@ where
                             ));
                             return Ok(None);
                         }
+                        inner.publishes += 1;
                     }
 
                     // handle topic aliases
@@ -472,10 +476,14 @@ impl<C> Inner<C> {
     where
         C: Service<ProtocolMessage, Response = ProtocolMessageAck, Error = DispatcherError<E>>,
     {
+        let is_publish = matches!(pkt, ProtocolMessage::PublishRelease(_));
         let result = match self.control.call(pkt).await {
             Ok(result) => {
                 if let Some(id) = num::NonZeroU16::new(packet_id) {
-                    self.info.borrow_mut().inflight.remove(&id);
+                    let mut info = self.info.borrow_mut();
+                    if info.inflight.remove(&id) && is_publish {
+                        info.publishes -= 1;
+                    }
                 }
                 result
             }
@@ -542,7 +550,10 @@ where
                 inner.info.borrow_mut().received.insert(id);
             } else {
                 // publish is rejected, PUBREL is not expected
-                inner.info.borrow_mut().inflight.remove(&id);
+                let mut info = inner.info.borrow_mut();
+                if info.inflight.remove(&id) {
+                    info.publishes -= 1;
+                }
             }
             codec::Packet::PublishReceived(codec::PublishAck {
                 packet_id: id,
@@ -551,7 +562,11 @@ where
                 properties: ack.properties,
             })
         } else {
-            inner.info.borrow_mut().inflight.remove(&id);
+            let mut info = inner.info.borrow_mut();
+            if info.inflight.remove(&id) {
+                info.publishes -= 1;
+            }
+            drop(info);
             codec::Packet::PublishAck(codec::PublishAck {
                 packet_id: id,
                 reason_code: ack.reason_code,
